@@ -7,13 +7,20 @@ package protocol
 
 //@ pred fin(h *MultiHandler) := h.err != nil || h.result != nil
 //@ pred hshape(h *MultiHandler) := h.out != nil && h.currentRound != nil && h.rounds != nil && h.broadcastHashes != nil && forall(k, round.Number, indom(h.rounds, k) ==> h.rounds[k] != nil)
-//@ pred hinv(h *MultiHandler) := hshape(h) && (closed(h.out) == fin(h)) && !(h.err != nil && h.result != nil)
-//@ pred hopen(h *MultiHandler) := hshape(h) && !closed(h.out) && h.err == nil && h.result == nil
+// Queues (C04, C05, C07): a slot map exists for every round from 2 to the final round number the session announced, and
+// the current round is one of the announced rounds -- so "all received" is never vacuously true for a round that
+// expects messages (every Finalize hands back a round within the announced range: interface contract of Finalize).
+//@ pred hq(h *MultiHandler) := h.messages != nil && h.broadcast != nil && forall(n, round.Number, (2 <= n && n <= h.currentRound.FinalRoundNumber()) ==> (h.broadcast[n] != nil && h.messages[n] != nil)) && h.currentRound.Number() <= h.currentRound.FinalRoundNumber()
+//@ pred hinv(h *MultiHandler) := hshape(h) && hq(h) && (closed(h.out) == fin(h)) && !(h.err != nil && h.result != nil)
+//@ pred hopen(h *MultiHandler) := hshape(h) && hq(h) && !closed(h.out) && h.err == nil && h.result == nil
 
 // A StartFunc either fails or yields the first round of a session (refined by the start closures of each protocol).
 //@ functype StartFunc
 //@   modifies shared
 //@   ensures result1 == nil ==> result0 != nil
+// the first round is within the range of rounds the session announces (the start closures of the protocols pin the
+// final round number and return their round 1)
+//@   ensures result1 == nil ==> result0.Number() <= result0.FinalRoundNumber()
 
 // The header filter (C09): exactly the messages of this session, for this party, of a round not yet passed.
 //@ pred canacc(h *MultiHandler, msg *Message) := msg != nil && msg.From != h.currentRound.SelfID() && (msg.To == "" || msg.To == h.currentRound.SelfID()) && msg.Protocol == h.currentRound.ProtocolID() && bytes_eq(msg.SSID, h.currentRound.SSID()) && ids_contains(h.currentRound.PartyIDs(), msg.From) && msg.Data != nil && msg.RoundNumber <= h.currentRound.FinalRoundNumber() && !(msg.RoundNumber < h.currentRound.Number() && msg.RoundNumber > 0)
@@ -86,9 +93,11 @@ package protocol
 //@   ensures[C07] (!msg.Broadcast && old(h.messages[msg.RoundNumber]) != nil && old(h.messages[msg.RoundNumber][msg.From]) != nil) ==> h.messages[msg.RoundNumber][msg.From] == old(h.messages[msg.RoundNumber][msg.From])
 //@   nopanic[C05,C17]
 //@   requires h != nil && excl(h.mtx) && msg != nil
-//@   modifies heap:MV_map_internal_round_Number_map_pkg_party_ID_ppkg_protocol_Message, heap:MD_map_pkg_party_ID_ppkg_protocol_Message, heap:MV_map_pkg_party_ID_ppkg_protocol_Message
+//@   modifies heap:MD_map_pkg_party_ID_ppkg_protocol_Message, heap:MV_map_pkg_party_ID_ppkg_protocol_Message
 
 //@ func (*MultiHandler).verifyBroadcastMessage
+//@   requires hq(h)
+//@   ensures hq(h)
 //@   assert_at[C07] StoreBroadcastMessage "StoreBroadcastMessage(roundMsg)": indom(h.rounds, msg.RoundNumber) && h.rounds[msg.RoundNumber] == r
 //@   nopanic[C05,C17]
 //@   requires h != nil && excl(h.mtx) && msg != nil && hshape(h)
@@ -100,6 +109,8 @@ package protocol
 // Dependency order (C07): a point-to-point message is verified and stored only for a round that has been
 // reached and, in a broadcast round, only once the sender's broadcast has been stored; and only after VerifyMessage accepted it.
 //@ func (*MultiHandler).verifyMessage
+//@   requires hq(h)
+//@   ensures hq(h)
 //@   assert_at[C07] VerifyMessage "r.VerifyMessage(roundMsg)": indom(h.rounds, msg.RoundNumber) && h.rounds[msg.RoundNumber] == r
 //@   assert_at[C07] VerifyMessage "r.VerifyMessage(roundMsg)": implements(r, round.BroadcastRound) ==> (h.broadcast[msg.RoundNumber] != nil && h.broadcast[msg.RoundNumber][msg.From] != nil)
 //@   assert_at[C07,C03] StoreMessage "r.StoreMessage(roundMsg)": called(VerifyMessage)
@@ -111,14 +122,20 @@ package protocol
 
 //@ func (*MultiHandler).receivedAll
 //@   nopanic[C05,C17]
-//@   requires h != nil && excl(h.mtx) && hshape(h)
+//@   requires h != nil && excl(h.mtx) && hshape(h) && hq(h)
 //@   modifies shared
-//@   ensures hshape(h)
+//@   ensures hshape(h) && hq(h)
+// "all received" means what it says (C07, C04, C05): in a round that takes messages (every round from 2 on) a broadcast
+// of every party, and a point-to-point message of every other party when the round expects them, is stored
+//@   ensures[C07,C04,C05] (result && h.currentRound.Number() >= 2 && implements(h.currentRound, round.BroadcastRound)) ==> each(h.currentRound.PartyIDs(), id, h.broadcast[h.currentRound.Number()][id] != nil)
+//@   ensures[C07,C04,C05] (result && h.currentRound.Number() >= 2 && expectsP2P(h.currentRound)) ==> each(h.currentRound.OtherPartyIDs(), id, h.messages[h.currentRound.Number()][id] != nil)
 //@   ensures[C06] (result && implements(h.currentRound, round.BroadcastRound) && old(h.broadcast[h.currentRound.Number()]) != nil) ==> h.broadcastHashes[h.currentRound.Number()] != nil
 //@   assert_at[C06] WriteAny "hashState.WriteAny": habs(arg1[0]) == h_bwd("Message", lastbytes(Hash))
 //@   loop 1: invariant each(h.currentRound.PartyIDs()[:rangeindex+1], id, h.broadcast[h.currentRound.Number()][id] != nil)
 //@   loop 2: invariant each(h.currentRound.PartyIDs(), id, h.broadcast[h.currentRound.Number()][id] != nil)
 //@   loop 2: invariant[C06] callcount(WriteAny) == rangeindex + 1
+//@   loop 3: invariant each(h.currentRound.OtherPartyIDs()[:rangeindex+1], id, h.messages[h.currentRound.Number()][id] != nil)
+//@   loop 3: invariant expectsP2P(h.currentRound) && (implements(h.currentRound, round.BroadcastRound) ==> each(h.currentRound.PartyIDs(), id, h.broadcast[h.currentRound.Number()][id] != nil))
 
 // Echo broadcast (C06): with a view hash recorded for the previous round, success means that every stored
 // point-to-point and broadcast message of the current round carries exactly that hash.
@@ -158,6 +175,10 @@ package protocol
 //@   modifies all
 //@   ensures[C17] hinv(h) && excl(h.mtx)
 //@   assert_at[C06] Finalize "h.currentRound.Finalize(out)": lastresult(receivedAll) && lastresult(checkBroadcastHash)
+// A round is finalized only with every party's message in its slot (C07, C04, C05) -- this is what the Finalize of the
+// identifiable-abort rounds needs to name the cheater instead of running on the party's own entries alone.
+//@   assert_at[C07,C04,C05] Finalize "h.currentRound.Finalize(out)": (h.currentRound.Number() >= 2 && implements(h.currentRound, round.BroadcastRound)) ==> each(h.currentRound.PartyIDs(), id, h.broadcast[h.currentRound.Number()][id] != nil)
+//@   assert_at[C07,C04,C05] Finalize "h.currentRound.Finalize(out)": (h.currentRound.Number() >= 2 && expectsP2P(h.currentRound)) ==> each(h.currentRound.OtherPartyIDs(), id, h.messages[h.currentRound.Number()][id] != nil)
 //@   assert_at[C06] send "h.out <- msg": r.Number() > 0 ==> msg.BroadcastVerification == h.broadcastHashes[r.Number()-1]
 //@   assert_at[C04] abort "broadcast verification failed": len(arg2) == 0
 //@   assert_at[C04] abort "h.abort(R.Err, R.Culprits...)": arg2 == R.Culprits && arg1 == R.Err
@@ -185,7 +206,10 @@ package protocol
 
 //@ func newQueue
 //@   nopanic[C05,C17]
-//@   modifies heap:MD_map_pkg_party_ID_ppkg_protocol_Message, heap:MV_map_pkg_party_ID_ppkg_protocol_Message
+//@   allocates
+//@   ensures result != nil && fresh(result) && forall(n, round.Number, (2 <= n && n <= rounds) ==> result[n] != nil)
+//@   loop 1: invariant q != nil && fresh(q) && 2 <= i && forall(n, round.Number, (2 <= n && n < i) ==> q[n] != nil)
+//@   modifies newobjects:MD_map_pkg_party_ID_ppkg_protocol_Message, newobjects:MV_map_pkg_party_ID_ppkg_protocol_Message, newobjects:MD_map_internal_round_Number_map_pkg_party_ID_ppkg_protocol_Message, newobjects:MV_map_internal_round_Number_map_pkg_party_ID_ppkg_protocol_Message
 
 // ---------------------------------------------------------------- TwoPartyHandler
 
